@@ -408,9 +408,21 @@ def run_chunks(ctx, kind, cases, n=None):
     return out
 
 
+import time as _time
+
+
+def _tick(ctx, name, t0=[None]):
+    now = _time.time()
+    if t0[0] is not None:
+        ctx.notes.append('stage %s: %.0fs' % (name, now - t0[0]))
+    t0[0] = now
+
+
 def main(ctx):
     rng = ctx.rng
+    _tick(ctx, 'start')
     ctx.proof = common.check_proofs('C12')
+    _tick(ctx, 'proofs')
     boost = 1 if ctx.proof.ok else 3          # intensified search when an obligation is broken
     hist = {}
 
@@ -475,6 +487,7 @@ def main(ctx):
                 ctx.fail('correspondence', 'exported table G_sites.v of %s [%s] differs from the implementation: %s'
                          % (c['key'], c['cons'], ', '.join(bad[:5])), {'stream': 'table', 'case': case})
     ctx.cov['tables_reimported'] = n_guard
+    _tick(ctx, 'tables')
 
     # ------------------------------------------------------------------ terms: model <-> implementation, dense oracle
     nterms = ctx.pick(1600, 16000) * boost
@@ -525,6 +538,7 @@ def main(ctx):
                  {'stream': 'terms', 'case': cases[coq_idx[b]], 'impl': res[coq_idx[b]]})
     ctx.cov['traces_validated_against_impl'] = len(coq_cases)
     hist['terms_odd_parity'] = nodd
+    _tick(ctx, 'terms')
 
     # ------------------------------------------------------------------ MPO: dense anticommutators
     mcases = mpo_cases(rng, ctx)
@@ -547,6 +561,7 @@ def main(ctx):
                 ctx.fail('oracle', 'anticommutator of %s through the MPO machinery on %s is wrong (max diff %.2e)'
                          % (term, case['tag'], x['anti_diff']), {'stream': 'mpo', 'sites': case['sites'], 'term': term}, match_key='C12:mpo:car')
 
+    _tick(ctx, 'mpo')
     # ------------------------------------------------------------------ GroupedSite
     gcases = grouped_cases(rng, ctx)
     gres = run_chunks(ctx, 'grouped', gcases)
@@ -580,6 +595,7 @@ def main(ctx):
     hist['grouped_drop_heterogeneous_IndexError'] = nf17
     hist['grouped_same_after_set_common_charges_TypeError'] = nf18
 
+    _tick(ctx, 'grouped')
     # ------------------------------------------------------------------ correlation_function(autoJW)
     ccases = corr_cases(rng, ctx)
     cres = run_chunks(ctx, 'corr', ccases, n=len(ccases))
@@ -597,6 +613,7 @@ def main(ctx):
             elif x['diff'] > TOL:
                 ctx.fail('oracle', 'correlation_function(%r, %r)[%s] differs from dense <psi|A_i B_j|psi> with Jordan-Wigner strings by %.2e'
                          % (x['a'], x['b'], x['arg'], x['diff']), {'stream': 'corr', 'case': case, 'pair': [x['a'], x['b']]}, match_key='C12:corr:dense')
+    _tick(ctx, 'corr')
     ctx.cov['input_distribution'] = hist
     ctx.assumptions += [
         'C12 tables: irrational entries (sqrt, roots of unity) are exported as squared entries / exponents after checking that the float '
